@@ -563,9 +563,11 @@ def body(run, proof_ok):
     n_opaque = 2000 if run.thorough() else 110
     suite = coverage_suite()
     cases = [c for _, c in suite]
+    family = result_list_cases(run.rng, None if run.thorough() else 44)
+    cases += family
     cases += [failgen.gen_case(run.rng) for _ in range(n_typed)]
     cases += [gen_opaque(run.rng, k) for k in range(n_opaque)]
-    run.log("cases: %d suite, %d typed, %d opaque" % (len(suite), n_typed, n_opaque))
+    run.log("cases: %d suite, %d result lists, %d typed, %d opaque" % (len(suite), len(family), n_typed, n_opaque))
     obs, layouts = [], []
     chunk = 600
     mism = []
@@ -647,13 +649,15 @@ def body(run, proof_ok):
                              "note": "a different count means an exit site was added or removed since the model was written"},
         "mismatches_not_reproduced": unreproduced,
         "findings_measured": outcome,
+        "result_list_family": {"cases": len(family), "of": len(result_list_family()),
+                               "what": "rest result lists of 1..4 values over three types, unnamed / named / grouped"},
         "coverage_suite": {"cases": len(suite),
                            "aimed_class_not_observed": [d for (d, _), o in zip(suite, obs) if o["diag"] != d
                                                         and not (d, o["diag"]) in (("DUsageUnknownSub", "DUsageNoArgs"),
                                                                                    ("DUsageNoTypeNoFile", "DUsageNoSubArgs"))]},
         "samples": [{"args": cases[i].args, "damage": cases[i].labels or cases[i].opaque, "cwd_is_pkg": cases[i].cwd_is_pkg,
                      "files": sorted(layouts[i]), "observed": {k: obs[i][k] for k in ("rc", "diag", "changed", "files")}}
-                    for i in (len(suite) + 3, len(typed) // 2, len(cases) - 2)],
+                    for i in (len(suite) + len(family) + 3, len(typed) // 2, len(cases) - 2)],
         "trusted_base": lib.TRUSTED_BASE_COMMON + [
             "the package is modelled by a small abstract syntax (type specs, struct fields, interface methods, function "
             "declarations, const specs, // comment lines); go/types facts are recomputed from it (underlying integer/struct type "
@@ -722,6 +726,46 @@ def replay(run, path):
         print("VIOLATION property=C18 replay=%s" % path)
         return 1
     return 0
+
+
+# ------------------------------------------------- result lists of every small arity
+
+def result_list_family():
+    """every result list of 1..4 values over {*string, *http.Response, error}, unnamed, named one by one, and named with
+    adjacent values of one type grouped into one field (`a, b T`): the number of fields and of values differ"""
+    import itertools
+    S, HR, E = F.tstar(F.tid("string")), F.tstar(F.tsel("http", "Response")), F.tid("error")
+    out = []
+    for L in range(1, 5):
+        for seq in itertools.product([S, HR, E], repeat=L):
+            out.append([F.Param([], t) for t in seq])
+            out.append([F.Param(["r%d" % i], t) for i, t in enumerate(seq)])
+            groups, i = [], 0
+            while i < L:
+                j = i
+                while j + 1 < L and seq[j + 1] == seq[i]:
+                    j += 1
+                groups.append(F.Param(["r%d" % k for k in range(i, j + 1)], seq[i]))
+                i = j + 1
+            if len(groups) < L:
+                out.append(groups)
+    return out
+
+
+def result_list_cases(rng, n=None):
+    fam = result_list_family()
+    if n is not None:
+        # the quick tier favours the lists whose number of fields differs from their number of values
+        grouped = [rs for rs in fam if sum(len(p.names) or 1 for p in rs) != len(rs)]
+        plain = [rs for rs in fam if rs not in grouped]
+        fam = rng.sample(grouped, min(len(grouped), (3 * n) // 4)) + rng.sample(plain, n - min(len(grouped), (3 * n) // 4))
+    cases = []
+    for rs in fam:
+        fs, _ = _rest_pkg(results=rs)
+        c = _case("rest", ["rest", "-type=Client"], fs)
+        c.labels = ["result_list_family"]
+        cases.append(c)
+    return cases
 
 
 # ------------------------------------------------- deterministic coverage suite
